@@ -768,6 +768,10 @@ for _v, _d in [("C09-h-explicitclose", "writers closed explicitly and checked be
     case("C01", _v.replace("C09", "C01x"), "benign", _d + " (C01.R11 looks at deferred stores to error results)", patch="selftest/variants/%s.diff" % _v)
 
 
+# C18.R10/R11 (known findings D21, D22): the repaired function is silent
+case("C18", "C18-h-repaired", "benign", "processRef repaired: a failed backup returns an error, a failed target lookup other than not-found returns an error (no KNOWN-FINDING, no report)", patch="selftest/variants/C18-h-repaired.diff")
+case("C18", "C18-h-repaired-backup-only", "benign", "processRef with only the backup failure repaired", patch="selftest/variants/C18-h-repaired-backup-only.diff")
+
 def main():
     bad = 0
     for pid, cases in CASES.items():
